@@ -9,7 +9,9 @@
 //     packed<9..12> and u16, s16 in the thorough tier of the native build (2 * 2^32 + ... pairs);
 //   * otherwise: all a x boundary set B (both argument orders) + seeded pairs that are distinct by construction
 //     (odd-multiplier permutation of the pair index), each with its two upper neighbours for local monotonicity;
-//   * 32-bit, packed<24>, packed<31>: stratified grid S x S + seeded pairs;  float32/float64: stratified grid.
+//   * 32-bit, packed<24>, packed<31>: stratified grid S x S + seeded pairs;  float32/float64: stratified grid;
+//   * every model that is not swept completely: the seed-independent pairs whose product is an exact multiple of max
+//     (a = i*d, b = j*max/d for the divisors d of max) -- the rounding boundary of the scaled product.
 //   * channel_invert: every x for <=16-bit and packed<=16 models, stratified for the rest.
 // The oracle is plain integer arithmetic (64-bit for <=16-bit models, __int128 above), long double / fma for floats.
 #include <boost/gil.hpp>
@@ -164,6 +166,41 @@ template <class T, class Wide> static void seeded_pairs(uint64_t count, const st
     vh::evals(4 * cnt); vh::distinct(cnt);
 }
 
+// ---- directed pairs: products that are exact multiples of max -------------------------------------
+// a*b/max is an integer exactly when a = i*d and b = j*(max/d) for a divisor d of max (after the shift to the unsigned
+// range).  This is the rounding boundary of the scaled product -- the place where a division-first or a
+// truncate-after-floating-point implementation goes one way for (a,b) and the other way for (b,a).  The set does not
+// depend on the seed.
+template <class T, class Wide> static void exact_quotient_pairs() {
+    const ll lo = M<T>::lo(), hi = M<T>::hi();
+    const uint64_t R = (uint64_t)(hi - lo);
+    std::vector<uint64_t> divs;
+    for (uint64_t d = 2; d * d <= R; ++d) if (R % d == 0) { divs.push_back(d); if (d != R / d) divs.push_back(R / d); }
+    std::sort(divs.begin(), divs.end());
+    uint64_t cnt = 0;
+    for (uint64_t d : divs) {
+        const uint64_t e = R / d;                 // a = i*d with i <= e,  b = j*e with j <= d
+        std::vector<uint64_t> is, js;
+        for (uint64_t k = 1; k <= 12; ++k) { if (k <= e) { is.push_back(k); is.push_back(e - k + 1); } if (k <= d) { js.push_back(k); js.push_back(d - k + 1); } }
+        for (uint64_t k = 1; k <= 8; ++k) { is.push_back(1 + (e - 1) * k / 9); js.push_back(1 + (d - 1) * k / 9); }
+        std::sort(is.begin(), is.end()); is.erase(std::unique(is.begin(), is.end()), is.end());
+        std::sort(js.begin(), js.end()); js.erase(std::unique(js.begin(), js.end()), js.end());
+        for (uint64_t i : is)
+            for (uint64_t j : js) {
+                const ll a = lo + (ll)(i * d), b = lo + (ll)(j * e);
+                const ll r = mul<T>(a, b);
+                check_product<T, Wide>(a, b, r, lo, hi);
+                const ll rc = mul<T>(b, a);
+                if (rc != r) vh::viol(key("mul-commutative", M<T>::name()), vh::cat("multiply(", a, ",", b, ")=", r, " but multiply(", b, ",", a, ")=", rc, " (a*b is an exact multiple of max)"));
+                if (a < hi) { ll r2 = mul<T>(a + 1, b); if (r2 < r) vh::viol(key("mul-monotone-a", M<T>::name()), vh::cat("b=", b, ": multiply(", a, ",b)=", r, " > multiply(", a + 1, ",b)=", r2)); }
+                if (b < hi) { ll r2 = mul<T>(a, b + 1); if (r2 < r) vh::viol(key("mul-monotone-b", M<T>::name()), vh::cat("a=", a, ": multiply(a,", b, ")=", r, " > multiply(a,", b + 1, ")=", r2)); }
+                if (a > lo) { ll r2 = mul<T>(a - 1, b); if (r2 > r) vh::viol(key("mul-monotone-a", M<T>::name()), vh::cat("b=", b, ": multiply(", a - 1, ",b)=", r2, " > multiply(", a, ",b)=", r)); }
+                ++cnt;
+            }
+    }
+    vh::evals(5 * cnt);   // overlaps the other enumerations: not added to the distinct count
+}
+
 // ---- value sets --------------------------------------------------------------------------
 static std::vector<ll> all_values(ll lo, ll hi) { std::vector<ll> v; for (ll x = lo; x <= hi; ++x) v.push_back(x); return v; }
 static void uniq(std::vector<ll>& v) { std::sort(v.begin(), v.end()); v.erase(std::unique(v.begin(), v.end()), v.end()); }
@@ -215,6 +252,10 @@ template <class T> static void mul_model(int mode) {
         return;
     }
     // stratified
+    if (vh::begin_case("mul-exact-quotient", nm)) {
+        if (M<T>::bits <= 16) exact_quotient_pairs<T, ll>(); else exact_quotient_pairs<T, i128>();
+        vh::obs(vh::cat("mul.exact.", nm));
+    }
     if (vh::begin_case("mul-grid", nm)) {
         vh::sample(vh::cat("channel_multiply on a stratified grid of ", nm, " values (ends, 2^k+-1, lattice, seeded), both argument orders"));
         std::vector<ll> B = grid_set<T>();
